@@ -72,10 +72,8 @@ zix_sem_timed_wait(ZixSem*        sem,
   if (!(r = clock_gettime(CLOCK_REALTIME, &ts))) {
     ts.tv_sec += (time_t)seconds;
     ts.tv_nsec += (long)nanoseconds;
-    if (ts.tv_nsec >= NS_PER_SECOND) {
-      ts.tv_nsec -= NS_PER_SECOND;
-      ts.tv_sec++;
-    }
+    ts.tv_sec += (time_t)(ts.tv_nsec / NS_PER_SECOND);
+    ts.tv_nsec %= NS_PER_SECOND;
 
     while ((r = sem_timedwait(&sem->sem, &ts)) && errno == EINTR) {
       // Interrupted, try again
